@@ -19,6 +19,16 @@ func main() {
 		cmdVerify(os.Args[2:])
 	case "check":
 		cmdCheck(os.Args[2:])
+	case "structural":
+		// govc structural <pkgs> <check>...   (debugging aid)
+		eng, err := vc.Load("/repo", strings.Split(os.Args[2], ","))
+		if err != nil {
+			fmt.Fprintln(os.Stderr, "load:", err)
+			os.Exit(2)
+		}
+		for _, r := range runStructural(eng, os.Args[3:]) {
+			fmt.Printf("  %-5v %s   [%s] %s\n", r.OK, r.Name, r.Desc, r.Detail)
+		}
 	default:
 		fmt.Fprintln(os.Stderr, "unknown command", os.Args[1])
 		os.Exit(2)
